@@ -4,6 +4,7 @@ package main
 
 import (
 	"fmt"
+	"os"
 	"sort"
 	"strings"
 
@@ -73,6 +74,9 @@ func getClauses(p *Prog) *clauseSet {
 		cs.Clauses[t] = m
 		cs.Order = append(cs.Order, t)
 		cs.States += mc.States
+		if os.Getenv("DBGSTATES") != "" {
+			fmt.Fprintln(os.Stderr, "clause", t, "states", mc.States)
+		}
 		cs.Paths += mc.Paths
 		for _, u := range m.Undecided {
 			cs.Probs = append(cs.Probs, m.Scenario+": "+u)
